@@ -408,14 +408,18 @@ struct S__class_souffle__DisjointSet_ D;
 uint64_t a1,b1,a2,b2; uint8_t s1, s2; uint64_t f1, f2;
 uint64_t in_b0, in_b1, in_b2, in_b3; uint8_t in_t0, in_t1, in_t2, in_t3;
 int done1 = 0;
-static void op(int role, uint64_t a, uint64_t b, uint8_t* s, uint64_t* f){
-  if (role==0) ds_union(&D,a,b); else if (role==1) *s = ds_same(&D,a,b); else *f = ds_find(&D,a);
-}
-void t1(void){ op(R1,a1,b1,&s1,&f1); __CPROVER_atomic_begin(); done1 = 1; __CPROVER_atomic_end(); }
+/* CBMC's concurrency mode rejects dereferences of pointers with several possible targets: after the spawn the
+   specification works on two fixed global arrays (A0 initial, A1 final) without pointer parameters */
+uint64_t A0[4], A1[4], RT0[4], RT1[4]; int cls[4], cls0[4];
+static uint64_t root0(uint64_t x){ for (int k=0;k<NN;k++){ if (P(A0[x])==x) return x; x=P(A0[x]); } return x; }
+static uint64_t root1(uint64_t x){ for (int k=0;k<NN;k++){ if (P(A1[x])==x) return x; x=P(A1[x]); } return x; }
+static void merge_g(uint64_t a, uint64_t b){ int ca=cls[a], cb=cls[b]; for (int i=0;i<NN;i++) if (cls[i]==cb) cls[i]=ca; }
+#define OPX(role, a, b, s, f) do { if ((role)==0) ds_union(&D,a,b); else if ((role)==1) s = ds_same(&D,a,b); else f = ds_find(&D,a); } while (0)
+void t1(void){ OPX(R1,a1,b1,s1,f1); __CPROVER_atomic_begin(); done1 = 1; __CPROVER_atomic_end(); }
 int main(){
   ds_init(&D);
   for (int i=0;i<NN;i++) ds_make(&D);
-  uint64_t s0[4] = {0,0,0,0}; uint8_t t0[4] = {0,0,0,0};
+  static uint64_t s0[4] = {0,0,0,0}; static uint8_t t0[4] = {0,0,0,0};   /* static: no __CPROVER_dead_object update at scope exit */
 #ifdef FRESH
   for (int i=0;i<NN;i++) s0[i]=pool[i];
 #else
@@ -423,22 +427,29 @@ int main(){
   __CPROVER_assume(inv(s0,t0) && rbound(s0)); for (int i=0;i<NN;i++) pool[i]=s0[i];
 #endif
   in_b0=s0[0]; in_b1=s0[1]; in_b2=s0[2]; in_b3=s0[3]; in_t0=t0[0]; in_t1=t0[1]; in_t2=t0[2]; in_t3=t0[3];
+  A0[0]=s0[0]; A0[1]=s0[1]; A0[2]=s0[2]; A0[3]=s0[3];
   a1=nondet_u64(); b1=nondet_u64(); a2=nondet_u64(); b2=nondet_u64();
   __CPROVER_assume(a1<NN && b1<NN && a2<NN && b2<NN);
   __CPROVER_ASYNC_1: t1();
-  op(R2,a2,b2,&s2,&f2);
+  OPX(R2,a2,b2,s2,f2);
   __CPROVER_assume(done1 == 1);
-  uint64_t s1b[NN]; for (int i=0;i<NN;i++) s1b[i]=pool[i];
-  __CPROVER_assert(acyclic(s1b), "final parent links form no cycle");
-  int cls[NN]; for (int i=0;i<NN;i++) cls[i]=(int)rootof(s0,i);
-  int cls0[NN]; for (int i=0;i<NN;i++) cls0[i]=cls[i];
-  if (R1==0) merge_cls(cls,a1,b1);
-  if (R2==0) merge_cls(cls,a2,b2);
-  if (acyclic(s1b)) {
-  __CPROVER_assert(rely(s0,s1b), "no class split, non-roots stay non-roots with frozen rank, root ranks monotone");
-  uint64_t r1[NN]; for (int i=0;i<NN;i++) r1[i]=rootof(s1b,i);
-  for (int i=0;i<NN;i++) for (int j=0;j<NN;j++)
-    __CPROVER_assert((r1[i]==r1[j]) == (cls[i]==cls[j]), "final partition is exactly the closure of the requested unions");
+  for (int i=0;i<NN;i++) A1[i]=pool[i];
+  int wf1 = 1; for (int i=0;i<NN;i++) if (P(A1[i])>=NN) wf1 = 0;
+  int ac = wf1;
+  if (wf1) for (int i=0;i<NN;i++){ RT1[i]=root1(i); if (P(A1[RT1[i]])!=RT1[i]) ac = 0; }
+  __CPROVER_assert(ac, "final parent links form no cycle");
+  for (int i=0;i<NN;i++){ RT0[i]=root0(i); cls[i]=(int)RT0[i]; cls0[i]=cls[i]; }
+  if (R1==0) merge_g(a1,b1);
+  if (R2==0) merge_g(a2,b2);
+  if (ac) {
+    int g = 1;
+    for (int i=0;i<NN;i++){
+      if (P(A0[i])!=(uint64_t)i){ if (P(A1[i])==(uint64_t)i) g=0; if (R(A1[i])!=R(A0[i])) g=0; }
+      else if (P(A1[i])==(uint64_t)i && R(A1[i])<R(A0[i])) g=0; }
+    for (int i=0;i<NN;i++) for (int j=0;j<NN;j++) if (RT0[i]==RT0[j] && RT1[i]!=RT1[j]) g=0;
+    __CPROVER_assert(g, "no class split, non-roots stay non-roots with frozen rank, root ranks monotone");
+    for (int i=0;i<NN;i++) for (int j=0;j<NN;j++)
+      __CPROVER_assert((RT1[i]==RT1[j]) == (cls[i]==cls[j]), "final partition is exactly the closure of the requested unions");
   }
   if (R1==1){ if (s1) __CPROVER_assert(cls[a1]==cls[b1], "sameSet true => related at return"); else __CPROVER_assert(cls0[a1]!=cls0[b1], "sameSet false => unrelated at some instant of the call (partition only coarsens: at its start)"); }
   if (R2==1){ if (s2) __CPROVER_assert(cls[a2]==cls[b2], "sameSet true => related at return"); else __CPROVER_assert(cls0[a2]!=cls0[b2], "sameSet false => unrelated at some instant of the call (partition only coarsens: at its start)"); }
@@ -450,6 +461,7 @@ int main(){
   return 0;
 }
 '''
+
 # native replay of concurrent counterexamples on the REAL C++: std::atomic is shimmed (hooked_atomic) so that the real
 # source text of UnionFind.h/PiggyList.h runs natively with a hook before every atomic block access; at the recorded
 # access index the other thread's complete REAL operation is executed (a genuine SC interleaving of the real code).
